@@ -2,6 +2,7 @@ import PMV.Generated.Names
 import PMV.Proofs.Rename
 import PMV.Proofs.RenameResolve
 import PMV.Proofs.Resolve
+import PMV.Proofs.ResolveRename
 /-
   C03 — Renaming preserves which binding every name refers to.
   Proved here (on the model of NameAssigner over abstract bindings, tied to the code by feeding the
@@ -57,12 +58,13 @@ theorem pinned_never_renamed (pg : Bool) (moduleNs : Ns) (rg : List String) (bin
     scoping specification, for every program of every run), final names never clash inside intersecting
     reservation scopes when one of them is new (`clash`: this is `no_new_clash`), and kept bindings keep their
     spelling (`kept`: `pinned_never_renamed`), then after renaming the use resolves to the same scope: no binding
-    on the way captures it, and its own binding still answers. -/
+    on the way captures it, and its own binding still answers.  (`clash` speaks about bindings homed in another scope than
+    `r`: an earlier version of this statement did not exclude `r' = r`, which no renamed `r` can satisfy.) -/
 theorem renaming_preserves_resolution (rs : List Result) (path : List Ns) (r : Result) (x : String)
     (hr : r ∈ rs) (hname : r.b.name = some x) (y : String) (hfin : r.final = some y)
     (horig : resolveOrig rs path x = some r.b.home)
     (cover : ∀ a ∈ path.takeWhile (fun a => !bindsOrig rs a x), a ∈ r.b.scope)
-    (clash : ∀ r' ∈ rs, (r.renamed = true ∨ r'.renamed = true) → (∃ ns, ns ∈ r.b.scope ∧ ns ∈ r'.b.scope) → r'.final ≠ r.final)
+    (clash : ∀ r' ∈ rs, r'.b.home ≠ r.b.home → (r.renamed = true ∨ r'.renamed = true) → (∃ ns, ns ∈ r.b.scope ∧ ns ∈ r'.b.scope) → r'.final ≠ r.final)
     (kept : ∀ r' ∈ rs, r'.renamed = false → r'.final = r'.b.name)
     (homeIn : ∀ r' ∈ rs, r'.b.home ∈ r'.b.scope) :
     resolveFinal rs path y = some r.b.home :=
@@ -111,6 +113,29 @@ theorem class_bodies_skipped (t : Resolve.Tree) (h : Resolve.WFTree t) (x : Stri
 theorem nonlocal_namespace_not_class (t : Resolve.Tree) (h : Resolve.WFTree t) (n : Nat) (hn : n ≤ t.length) :
     (Resolve.info t (Resolve.nonlocalNs t t.length n)).kind ≠ .class_ :=
   Resolve.nonlocalNs_not_class t h t.length n hn
+
+/-- T03.6 (T03.3 and T03.4 together): let `t'` be the namespace tree after renaming (same shape; scopes bind what the results
+    `rs` say; `global` / `nonlocal` declarations of `x` now declare `y`).  A use of `x` in namespace `n` that `get_binding`
+    resolves to the binding `r` is found, under its new spelling `y` and by the same lookup on the renamed tree, in the same
+    scope — provided the reservation scope of `r` covers the lookup path below its home (`cover`), final names never clash
+    inside intersecting reservation scopes when one of the two is new (`clash`: what `no_new_clash` gives for two different
+    bindings) and kept bindings keep their spelling (`kept`: `pinned_never_renamed`). -/
+theorem lookup_after_renaming (t t' : Resolve.Tree) (rs : List Result) (r : Result) (x y : String) (fuel n : Nat)
+    (h : Resolve.RenamedFor t t' rs x y)
+    (hr : r ∈ rs) (hname : r.b.name = some x) (hfin : r.final = some y)
+    (horig : Resolve.getBinding t x fuel n = some r.b.home)
+    (cover : ∀ a ∈ (Resolve.lookupPath t x fuel n).takeWhile (fun a => !bindsOrig rs a x), a ∈ r.b.scope)
+    (clash : ∀ r' ∈ rs, r'.b.home ≠ r.b.home → (r.renamed = true ∨ r'.renamed = true) → (∃ ns, ns ∈ r.b.scope ∧ ns ∈ r'.b.scope) → r'.final ≠ r.final)
+    (kept : ∀ r' ∈ rs, r'.renamed = false → r'.final = r'.b.name)
+    (homeIn : ∀ r' ∈ rs, r'.b.home ∈ r'.b.scope) :
+    Resolve.getBinding t' y fuel n = Resolve.getBinding t x fuel n :=
+  Resolve.lookup_after_renaming t t' rs r x y fuel n h hr hname hfin horig cover clash kept homeIn
+
+-- Non-vacuity of T03.6: every hypothesis holds for module {value ↦ A} / function {local_one ↦ B} with a read of `value` in the
+-- function (`Resolve.exRenamed`, `Resolve.exApplies` instantiate the theorem), and the conclusion is what evaluation gives.
+example : Resolve.getBinding Resolve.exT' "A" 4 1 = some 0 ∧ Resolve.getBinding Resolve.exT "value" 4 1 = some 0
+    ∧ Resolve.RenamedFor Resolve.exT Resolve.exT' Resolve.exRs "value" "A" :=
+  ⟨by decide, by decide, Resolve.exRenamed⟩
 
 -- Non-vacuity: module (0) and class (1) both bind `value`; a method (2) of the class uses it: the module's binding answers,
 -- in the class body itself the class's; a method that declares it `global` reaches the module, one nested in a function (3→4)
